@@ -247,15 +247,12 @@ func (f *File) enterWriteMode() error {
 			return err
 		}
 
-		f.writeBuf = writeBuf
-		f.cleanWriteBuf = cleanWriteBuf
-
 		// Read existing file into buffer
 		if exists {
 			if err := f.readOps.Restore(
 				func(path string, mode fs.FileMode) (io.WriteCloser, error) {
 					// Don't close the file here, we want to re-use it!
-					return ioext.AddCloseNopToWriter(f.writeBuf), nil
+					return ioext.AddCloseNopToWriter(writeBuf), nil
 				},
 				func(path string, mode fs.FileMode) error {
 					// Not necessary; can't read on a directory
@@ -266,9 +263,16 @@ func (f *File) enterWriteMode() error {
 				"",
 				true,
 			); err != nil {
+				// Don't keep what has been loaded so far: it might not have passed verification
+				_ = cleanWriteBuf()
+
 				return err
 			}
 		}
+
+		// Only adopt the buffer once the existing content has been loaded (and verified) completely
+		f.writeBuf = writeBuf
+		f.cleanWriteBuf = cleanWriteBuf
 
 		if f.flags.Truncate {
 			if err := f.writeBuf.Truncate(0); err != nil {
